@@ -6,7 +6,7 @@ statement, implicit last expression, annotated variable, field, reassignment,
 argument that is itself a call.  conforming <=> T <= P in the documented order
 (T == P, Int <= Float, B <= A); every other pair / arity is a single-point mutant.
 """
-from .. import ctxgen
+from .. import ctxgen, scopeseq
 from ..staticprop import evaluate_verdict
 
 ID = "C05"
@@ -144,6 +144,8 @@ def payloads(tier):
 def cases(tier, seed):
     depth = 1 if tier == "quick" else 2
     yield from ctxgen.cases_for(payloads(tier), depth, "c05")
+    # the scope machine: every statement sequence over {def, def fin, shadowing def, assign, typed uses, 7 block kinds} within a size bound
+    yield from scopeseq.cases("C05", tier)
 
 
 def evaluate(case, drv):
